@@ -12,7 +12,10 @@
 //!
 //! A deterministic eviction pass uses the hook `QuotaManager::verif_evict_now` (`--cfg samply_verif`);
 //! `evictasync` goes through the real asynchronous path: `trigger_eviction_if_needed`, a wait until
-//! the observed state is stable, `finish()`.
+//! the observed state is stable, `finish()`; `evictrace` is `trigger_eviction_if_needed` immediately
+//! followed by `finish()` (what samply does at shutdown): tokio's `select!` then either runs the whole
+//! pass or none of it; the case is repeated until the pass ran (see `execute`).
+//! `bulk` is a macro for many `created` notifications with one observation at the end (large tables).
 use std::collections::{BTreeMap, BTreeSet};
 use std::panic::{catch_unwind, AssertUnwindSafe};
 use std::path::{Path, PathBuf};
@@ -29,6 +32,15 @@ static COUNTER: AtomicU64 = AtomicU64::new(0);
 fn work_root() -> PathBuf {
     let root = std::env::var("VERIF_ROOT").unwrap_or_else(|_| ".".to_string());
     PathBuf::from(root).join(".work").join("C15").join("tmp")
+}
+
+/// time token of "`a` seconds ago" (negative: in the future)
+fn tok(a: i64) -> String {
+    if a >= 0 {
+        format!("n-{a}")
+    } else {
+        format!("n+{}", -a)
+    }
 }
 
 fn now_secs() -> u64 {
@@ -175,6 +187,8 @@ struct Run<'a> {
     live: Option<Live>,
     stats: &'a mut Stats,
     max_size: Option<u64>,
+    /// an `evictrace` op left the state unchanged (the stop signal won the `select!`, or nothing to do)
+    race_noop: bool,
 }
 
 impl<'a> Run<'a> {
@@ -232,6 +246,17 @@ impl<'a> Run<'a> {
         let removed: Vec<&DbRow> = b.iter().filter(|r| !kept.contains(&r.0)).collect();
         self.stats.bump(&format!("evict_removed_{}", removed.len().min(5)));
         self.stats.bump(&format!("evict_rows_{}", b.len().min(12)));
+        for lim in [64usize, 100, 128, 256, 1000, 4096] {
+            if b.len() > lim {
+                self.stats.bump(&format!("evict_rows_over_{lim}"));
+            }
+            if removed.len() > lim {
+                self.stats.bump(&format!("evict_removed_over_{lim}"));
+            }
+        }
+        if b.iter().any(|r| r.3 >= self.s0 as i64) {
+            self.stats.bump("evict_with_row_accessed_now_or_in_the_future");
+        }
         if removed.iter().any(|r| a.iter().any(|k| k.3 == r.3)) {
             self.stats.bump("evict_tie_split_between_removed_and_kept");
         }
@@ -382,6 +407,54 @@ impl<'a> Run<'a> {
                     st.into()
                 }
             }
+            "evictrace" => {
+                if self.live.is_none() {
+                    "nomgr".into()
+                } else {
+                    let before_inv = read_db(&self.db);
+                    let before = (before_inv.clone(), list_fs(&self.base));
+                    self.live.as_ref().unwrap().n.trigger_eviction_if_needed();
+                    let st = self.close();
+                    let after = self.snapshot();
+                    if after == before {
+                        self.race_noop = true;
+                    }
+                    self.note_evict(&before_inv, &after.0, st, "evictrace");
+                    st.into()
+                }
+            }
+            "bulk" if w.len() == 8 => match &self.live {
+                None => "nomgr".into(),
+                Some(l) => {
+                    let (Ok(count), Ok(size), Some(t0), Ok(step), Ok(mult), Ok(every)) = (
+                        w[2].parse::<u64>(),
+                        w[3].parse::<u64>(),
+                        parse_time(w[4], s0),
+                        w[5].parse::<u64>(),
+                        w[6].parse::<u64>(),
+                        w[7].parse::<u64>(),
+                    ) else {
+                        return "bad-op".into();
+                    };
+                    let dir = real_path(&self.base, w[1]);
+                    let mut st = "ok";
+                    for i in 0..count {
+                        let p = dir.join(format!("k{i}"));
+                        if every != 0 && i % every == 0 {
+                            let _ = std::fs::create_dir_all(&dir);
+                            let _ = std::fs::write(&p, b"x");
+                        }
+                        let back = Duration::from_secs(((i * mult) % count) * step);
+                        let r = catch_unwind(AssertUnwindSafe(|| l.n.on_file_created(&p, size, t0 - back)));
+                        if r.is_err() {
+                            st = "panic";
+                            break;
+                        }
+                    }
+                    self.stats.add("bulk_notifications", count);
+                    st.into()
+                }
+            },
             "mkfile" if w.len() == 2 => {
                 let p = real_path(&self.base, w[1]);
                 let ok = p.parent().map(|d| std::fs::create_dir_all(d).is_ok()).unwrap_or(false)
@@ -422,7 +495,22 @@ impl<'a> Run<'a> {
     }
 }
 
-fn run_once(ops: &[String], stats: &mut Stats) -> Option<Vec<String>> {
+/// The wall clock matters to the real code only through `SystemTime::now()` in the age pass and through
+/// the creation time of files found on disk when a fresh database is pre-populated; a case that does
+/// neither may straddle a clock tick (large tables, repeated races).
+fn tick_tolerant(ops: &[String]) -> bool {
+    let numeric_max_age = ops.iter().any(|l| l.starts_with("maxage ") && l.trim() != "maxage none");
+    let first_open = ops.iter().position(|l| l.starts_with("open")).unwrap_or(0);
+    let files_before_open = ops[..first_open].iter().any(|l| l.starts_with("mkfile") || l.starts_with("bulk"));
+    !numeric_max_age && !files_before_open
+}
+
+enum Once {
+    Ticked,
+    Done(Vec<String>, bool),
+}
+
+fn run_once(ops: &[String], stats: &mut Stats) -> Once {
     let id = COUNTER.fetch_add(1, Ordering::SeqCst);
     let dir = work_root().join(format!("{}-{}", std::process::id(), id));
     let _ = std::fs::remove_dir_all(&dir);
@@ -430,9 +518,11 @@ fn run_once(ops: &[String], stats: &mut Stats) -> Option<Vec<String>> {
     let dir = dir.canonicalize().unwrap();
     // start early in a second so that the case is unlikely to straddle a tick
     let has_async = ops.iter().any(|l| l.starts_with("evictasync"));
-    loop {
+    let big = ops.iter().any(|l| l.starts_with("bulk"));
+    let tolerant = tick_tolerant(ops);
+    while !tolerant {
         let frac = SystemTime::now().duration_since(UNIX_EPOCH).unwrap().subsec_millis();
-        if frac < if has_async { 300 } else { 850 } {
+        if frac < if has_async || big { 300 } else { 850 } {
             break;
         }
         std::thread::sleep(Duration::from_millis(20));
@@ -448,6 +538,7 @@ fn run_once(ops: &[String], stats: &mut Stats) -> Option<Vec<String>> {
         live: None,
         stats: &mut local,
         max_size: None,
+        race_noop: false,
     };
     let mut out = Vec::with_capacity(ops.len());
     for l in ops {
@@ -456,14 +547,15 @@ fn run_once(ops: &[String], stats: &mut Stats) -> Option<Vec<String>> {
     if run.live.is_some() {
         let _ = run.close();
     }
-    let ticked = now_secs() != s0;
+    let ticked = now_secs() != s0 && !tolerant;
+    let race_noop = run.race_noop;
     drop(run);
     let _ = std::fs::remove_dir_all(&dir);
     if ticked {
-        return None;
+        return Once::Ticked;
     }
     stats.merge(&local);
-    Some(out)
+    Once::Done(out, race_noop)
 }
 
 // ---------------------------------------------------------------------------------------------
@@ -481,11 +573,12 @@ struct Gen<'r> {
     ops: Vec<String>,
     /// generator-side picture of the tree under `B` (physical paths)
     nodes: BTreeMap<String, Kind>,
-    /// predicted inventory of plain rows: canonical path -> (size, ago)
-    inv: BTreeMap<String, (u64, u64)>,
+    /// predicted inventory of plain rows: canonical path -> (size, ago); a negative "ago" is a time in
+    /// the future (`n+k`: clock stepped back, or a notification stamped after the pass read the clock)
+    inv: BTreeMap<String, (u64, i64)>,
     open: bool,
     /// palette of "seconds ago" values (few values ⇒ ties)
-    agos: Vec<u64>,
+    agos: Vec<i64>,
     distinct_times: bool,
     next_distinct: u64,
 }
@@ -499,7 +592,7 @@ impl<'r> Gen<'r> {
         let mut agos = Vec::new();
         let n = rng.range(2, 5);
         for _ in 0..n {
-            let base = rng.range(1, 9) * 1000;
+            let base = rng.range(1, 9) as i64 * 1000;
             agos.push(base);
             if rng.chance(1, 3) {
                 agos.push(base + 1);
@@ -507,6 +600,17 @@ impl<'r> Gen<'r> {
             if rng.chance(1, 4) {
                 agos.push(base - 1);
             }
+        }
+        // the present and the future: production always has a row with atime = now when the first pass
+        // runs (created → trigger)
+        if rng.chance(1, 4) {
+            agos.push(0);
+        }
+        if rng.chance(1, 8) {
+            agos.push(-1);
+        }
+        if rng.chance(1, 10) {
+            agos.push(-3600);
         }
         Gen {
             rng,
@@ -519,10 +623,10 @@ impl<'r> Gen<'r> {
             next_distinct: 1,
         }
     }
-    fn ago(&mut self) -> u64 {
+    fn ago(&mut self) -> i64 {
         if self.distinct_times {
             self.next_distinct += self.rng.range(1, 3);
-            return 100 + self.next_distinct * 7;
+            return (100 + self.next_distinct * 7) as i64;
         }
         *self.rng.pick(&self.agos)
     }
@@ -595,7 +699,8 @@ impl<'r> Gen<'r> {
         if let Some(p) = self.free_root_path() {
             self.mkfile(&p);
             let (s, a) = (self.size(), self.ago());
-            self.ops.push(format!("created {p} {s} n-{a}"));
+            let ta = tok(a);
+            self.ops.push(format!("created {p} {s} {ta}"));
             self.inv.insert(p, (s, a));
         }
     }
@@ -606,7 +711,8 @@ impl<'r> Gen<'r> {
         }
         let p = self.rng.pick(&fs).clone();
         let (s, a) = (self.size(), self.ago());
-        self.ops.push(format!("created {p} {s} n-{a}"));
+            let ta = tok(a);
+        self.ops.push(format!("created {p} {s} {ta}"));
         self.inv.insert(p, (s, a));
     }
     fn access(&mut self) {
@@ -616,7 +722,8 @@ impl<'r> Gen<'r> {
         }
         let p = self.rng.pick(&fs).clone();
         let a = self.ago();
-        self.ops.push(format!("accessed {p} n-{a}"));
+        let ta = tok(a);
+        self.ops.push(format!("accessed {p} {ta}"));
         if let Some(e) = self.inv.get_mut(&p) {
             e.1 = a;
         }
@@ -627,13 +734,22 @@ impl<'r> Gen<'r> {
     /// a max size shaped around the boundaries of the selection loop
     fn pick_max_size(&mut self) -> String {
         let total = self.total();
-        let mut rows: Vec<(u64, u64)> = self.inv.values().map(|v| (v.1, v.0)).collect();
+        let mut rows: Vec<(i64, u64)> = self.inv.values().map(|v| (v.1, v.0)).collect();
         rows.sort_by(|x, y| y.0.cmp(&x.0)); // oldest (largest ago) first
         let mut prefix = vec![0u64];
         for r in &rows {
             prefix.push(prefix.last().unwrap() + r.1);
         }
-        let k = self.rng.below(prefix.len() as u64) as usize;
+        let mut k = self.rng.below(prefix.len() as u64) as usize;
+        if rows.len() > 40 && self.rng.chance(3, 4) {
+            // large tables: the cut next to the page sizes a batched query would use
+            let n = rows.len();
+            let cand: Vec<usize> = [63, 64, 65, 99, 100, 101, 127, 128, 129, 199, 200, 201, 255, 256, 257, n - 1, n]
+                .into_iter()
+                .filter(|c| *c <= n)
+                .collect();
+            k = *self.rng.pick(&cand);
+        }
         let target = total - prefix[k];
         let v = match self.rng.below(12) {
             0 => total,
@@ -653,11 +769,11 @@ impl<'r> Gen<'r> {
     fn pick_max_age(&mut self) -> String {
         match self.rng.below(8) {
             0 | 1 => "none".to_string(),
-            2 | 3 => self.rng.pick(&self.agos).to_string(),
-            4 => (self.rng.pick(&self.agos) + 1).to_string(),
-            5 => (self.rng.pick(&self.agos).saturating_sub(1)).to_string(),
+            2 | 3 => (*self.rng.pick(&self.agos)).max(0).to_string(),
+            4 => ((*self.rng.pick(&self.agos)).max(0) + 1).to_string(),
+            5 => ((*self.rng.pick(&self.agos) - 1).max(0)).to_string(),
             6 => {
-                let vals: Vec<u64> = self.inv.values().map(|v| v.1).collect();
+                let vals: Vec<i64> = self.inv.values().map(|v| v.1.max(0)).collect();
                 if vals.is_empty() {
                     "0".to_string()
                 } else {
@@ -700,21 +816,22 @@ impl<'r> Gen<'r> {
     }
     fn odd_path_op(&mut self) {
         let a = self.ago();
+        let ta = tok(a);
         let s = self.size();
         match self.rng.below(14) {
-            0 => self.ops.push(format!("created /out/s1 {s} n-{a}")),
-            1 => self.ops.push(format!("created /out/new{} {s} n-{a}", self.rng.below(3))),
+            0 => self.ops.push(format!("created /out/s1 {s} {ta}")),
+            1 => self.ops.push(format!("created /out/new{} {s} {ta}", self.rng.below(3))),
             2 => {
                 // `root/../out/x` spelling of a path that does not exist (yet)
                 let n = self.rng.below(3);
-                self.ops.push(format!("created /root/../out/x{n} {s} n-{a}"));
+                self.ops.push(format!("created /root/../out/x{n} {s} {ta}"));
             }
             3 => {
                 // spelling through `..` of an existing file under the root
                 let fs = self.root_files();
                 if let Some(p) = fs.first() {
                     let tail = p.strip_prefix("/root/").unwrap();
-                    self.ops.push(format!("accessed /root/../root/{tail} n-{a}"));
+                    self.ops.push(format!("accessed /root/../root/{tail} {ta}"));
                 }
             }
             4 => {
@@ -725,9 +842,9 @@ impl<'r> Gen<'r> {
                 let fs = self.root_files();
                 if let Some(p) = fs.last() {
                     let tail = p.strip_prefix("/root/").unwrap();
-                    self.ops.push(format!("created /rl/{tail} {s} n-{a}"));
+                    self.ops.push(format!("created /rl/{tail} {s} {ta}"));
                 } else {
-                    self.ops.push(format!("created /rl/nofile {s} n-{a}"));
+                    self.ops.push(format!("created /rl/nofile {s} {ta}"));
                 }
             }
             5 => {
@@ -735,27 +852,27 @@ impl<'r> Gen<'r> {
                 if !self.nodes.contains_key("/root/ls") {
                     self.symlink("/root/ls", "/out/s1");
                 }
-                self.ops.push(format!("created /root/ls {s} n-{a}"));
+                self.ops.push(format!("created /root/ls {s} {ta}"));
             }
             6 => {
                 // a directory recorded as a file (remove_file fails with EISDIR)
                 if !self.nodes.contains_key("/root/dd") {
                     self.mkdir("/root/dd");
                 }
-                self.ops.push(format!("created /root/dd {s} n-{a}"));
+                self.ops.push(format!("created /root/dd {s} {ta}"));
             }
-            7 => self.ops.push(format!("created /root {s} n-{a}")),
+            7 => self.ops.push(format!("created /root {s} {ta}")),
             8 => {
                 // a path through a regular file (ENOTDIR)
                 let fs = self.root_files();
                 if let Some(p) = fs.first() {
-                    self.ops.push(format!("created {p}/zz {s} n-{a}"));
+                    self.ops.push(format!("created {p}/zz {s} {ta}"));
                 }
             }
             9 => {
                 // a file that does not exist at notification time
                 if let Some(p) = self.free_root_path() {
-                    self.ops.push(format!("created {p} {s} n-{a}"));
+                    self.ops.push(format!("created {p} {s} {ta}"));
                     if self.rng.chance(1, 2) {
                         self.mkfile(&p);
                     }
@@ -767,7 +884,7 @@ impl<'r> Gen<'r> {
                 if !self.nodes.contains_key("/root/dang") {
                     self.symlink("/root/dang", "/void/nothing");
                 }
-                self.ops.push(format!("created /root/dang {s} n-{a}"));
+                self.ops.push(format!("created /root/dang {s} {ta}"));
             }
             11 => {
                 let fs = self.root_files();
@@ -788,7 +905,7 @@ impl<'r> Gen<'r> {
                 if !self.nodes.contains_key(&p) {
                     self.mkfile(&p);
                 }
-                self.ops.push(format!("created /root/lin/{n} {s} n-{a}"));
+                self.ops.push(format!("created /root/lin/{n} {s} {ta}"));
                 self.inv.insert(p, (s, a));
             }
         }
@@ -796,12 +913,13 @@ impl<'r> Gen<'r> {
     /// excluded points of the theorems' hypotheses: rows that do not name a plain file under the root
     fn excluded_point_op(&mut self) {
         let a = self.ago();
+        let ta = tok(a);
         let s = self.rng.range(1, 50);
         match self.rng.below(9) {
             0 => {
                 // `root/../out/x` recorded while absent, then a dangling symlink appears there
                 let n = self.rng.below(2);
-                self.ops.push(format!("created /root/../out/x{n} {s} n-{a}"));
+                self.ops.push(format!("created /root/../out/x{n} {s} {ta}"));
                 if !self.nodes.contains_key(&format!("/out/x{n}")) {
                     self.symlink(&format!("/out/x{n}"), "/void/zzz");
                 }
@@ -809,7 +927,7 @@ impl<'r> Gen<'r> {
             1 => {
                 // … then a regular file appears there
                 let n = self.rng.below(2);
-                self.ops.push(format!("created /root/../out/y{n} {s} n-{a}"));
+                self.ops.push(format!("created /root/../out/y{n} {s} {ta}"));
                 if !self.nodes.contains_key(&format!("/out/y{n}")) {
                     self.mkfile(&format!("/out/y{n}"));
                 }
@@ -818,7 +936,7 @@ impl<'r> Gen<'r> {
                 // a recorded file is replaced by a symlink that leaves the root
                 if let Some(p) = self.free_root_path() {
                     self.mkfile(&p);
-                    self.ops.push(format!("created {p} {s} n-{a}"));
+                    self.ops.push(format!("created {p} {s} {ta}"));
                     self.rm(&p);
                     self.symlink(&p, "/out/s2");
                 }
@@ -828,7 +946,7 @@ impl<'r> Gen<'r> {
                 if !self.nodes.contains_key("/root/dl") {
                     self.symlink("/root/dl", "/out");
                 }
-                self.ops.push(format!("created /root/dl/z {s} n-{a}"));
+                self.ops.push(format!("created /root/dl/z {s} {ta}"));
                 match self.rng.below(3) {
                     0 => {
                         if !self.nodes.contains_key("/out/z") {
@@ -859,7 +977,7 @@ impl<'r> Gen<'r> {
                 let big = *self.rng.pick(&[1u64 << 63, u64::MAX, (1u64 << 63) + 5, 1u64 << 62, (1u64 << 62) + 7]);
                 if let Some(p) = self.free_root_path() {
                     self.mkfile(&p);
-                    self.ops.push(format!("created {p} {big} n-{a}"));
+                    self.ops.push(format!("created {p} {big} {ta}"));
                 }
             }
             _ => {
@@ -869,17 +987,54 @@ impl<'r> Gen<'r> {
                     self.symlink("/root/lin", "/root/d2");
                 }
                 let p = "/root/d2/late".to_string();
-                self.ops.push(format!("created /root/lin/late {s} n-{a}"));
+                self.ops.push(format!("created /root/lin/late {s} {ta}"));
                 if !self.nodes.contains_key(&p) {
                     self.mkfile(&p);
                 }
             }
         }
     }
-    fn prelude(&mut self, with_pre: bool) {
-        self.mkdir("/root");
+    /// `root_variant`: 0 = `open /root` on an existing canonical directory; the others are the excluded
+    /// points of the `DirChain` hypothesis on the *spelling* of the root given to `QuotaManager::new`:
+    /// 1 = through a symlink (`/rl → /root`), 2 = through a chain of two symlinks, 3 = with `..`,
+    /// 4 = the root directory is created only after the manager was opened, 5 = a symlink spelling that
+    /// does not resolve yet when the manager is opened (every later notification is ignored)
+    fn prelude(&mut self, with_pre: bool, root_variant: u64) {
+        let spelling = match root_variant {
+            1 => {
+                self.mkdir("/root");
+                self.symlink("/rl", "/root");
+                "/rl"
+            }
+            2 => {
+                self.mkdir("/root");
+                self.symlink("/rl", "/root");
+                self.symlink("/rl2", "/rl");
+                "/rl2"
+            }
+            3 => {
+                self.mkdir("/root");
+                self.mkdir("/other");
+                "/other/../root"
+            }
+            4 => "/root",
+            5 => "/rl",
+            _ => {
+                self.mkdir("/root");
+                "/root"
+            }
+        };
         self.mkfile("/out/s1");
         self.mkfile("/out/s2");
+        if root_variant >= 4 {
+            self.ops.push(format!("open {spelling}"));
+            self.open = true;
+            self.mkdir("/root");
+            if root_variant == 5 {
+                self.symlink("/rl", "/root");
+            }
+            return;
+        }
         let mut pre = String::new();
         if with_pre {
             self.distinct_times = true;
@@ -889,7 +1044,8 @@ impl<'r> Gen<'r> {
                     self.mkfile(&p);
                     let s = self.rng.range(0, 300);
                     let a = self.ago();
-                    pre.push_str(&format!(" {p}:{s}:n-{a}"));
+                    let ta = tok(a);
+                    pre.push_str(&format!(" {p}:{s}:{ta}"));
                     self.inv.insert(p, (s, a));
                 }
             }
@@ -897,22 +1053,124 @@ impl<'r> Gen<'r> {
                 pre.push_str(" /out/s1:7:n-50");
             }
         }
-        self.ops.push(format!("open /root{pre}"));
+        self.ops.push(format!("open {spelling}{pre}"));
         self.open = true;
+    }
+
+    /// one `bulk` line: `count` files `dir/k<i>`, file `i` accessed `ago0 + ((i·mult) mod count)·step` ago
+    fn bulk(&mut self, dir: &str, count: u64, size: u64, ago0: i64, step: u64, mult: u64, every: u64) {
+        self.ops.push(format!("bulk {dir} {count} {size} {} {step} {mult} {every}", tok(ago0)));
+        for i in 0..count {
+            let p = format!("{dir}/k{i}");
+            if every != 0 && i % every == 0 {
+                self.mk_parents(&p);
+                self.nodes.insert(p.clone(), Kind::File);
+            }
+            self.inv.insert(p, (size, ago0 + (((i * mult) % count) * step) as i64));
+        }
     }
 }
 
+/// large tables (reviewer's blind spot 1; seeded change C15-3): 65-300 rows (more in the fixed cases), the
+/// cut next to the page sizes a batched / limited LRU query would use
+fn gen_large(rng: &mut Rng, tier: Tier) -> Vec<String> {
+    let mut g = Gen::new(rng);
+    g.prelude(false, 0);
+    let nb = g.rng.range(1, 2);
+    for j in 0..nb {
+        let count = *g.rng.pick(&[65u64, 66, 100, 101, 129, 130, 200, 257, 300]);
+        let count = if tier == Tier::Quick { count.min(200) } else { count };
+        let size = g.rng.range(1, 9);
+        let ago0 = g.rng.range(2000, 6000) as i64;
+        let step = *g.rng.pick(&[0u64, 1, 1, 2]);
+        let mult = *g.rng.pick(&[1, count - 1, 7919]);
+        let every = *g.rng.pick(&[0u64, 1, 1, 3]);
+        g.bulk(&format!("/root/bk{j}"), count, size, ago0, step, mult, every);
+        g.maybe_restart();
+    }
+    let rounds = g.rng.range(1, 3);
+    for _ in 0..rounds {
+        let steps = g.rng.range(0, 5);
+        for _ in 0..steps {
+            match g.rng.below(6) {
+                0 | 1 => g.access(),
+                2 => g.create_new(),
+                3 => g.recreate(),
+                4 => {
+                    let fs = g.root_files();
+                    if !fs.is_empty() {
+                        let p = g.rng.pick(&fs).clone();
+                        g.rm(&p);
+                    }
+                }
+                _ => {
+                    let fs = g.root_files();
+                    if !fs.is_empty() {
+                        let p = g.rng.pick(&fs).clone();
+                        g.ops.push(format!("deleted {p}"));
+                        g.inv.remove(&p);
+                    }
+                }
+            }
+        }
+        let v = g.pick_max_size();
+        g.ops.push(format!("maxsize {v}"));
+        if g.rng.chance(1, 4) {
+            let vals: Vec<i64> = g.inv.values().map(|v| v.1.max(0)).collect();
+            let a = *g.rng.pick(&vals);
+            g.ops.push(format!("maxage {a}"));
+        }
+        g.evict();
+        g.maybe_restart();
+    }
+    g.ops.push("close".to_string());
+    g.ops
+}
+
+/// `trigger_eviction_if_needed` directly followed by `finish()` with at least two files to delete
+/// (reviewer's blind spot 2: a `finish()` that cuts the pass short); no max age, so that the case may be
+/// repeated across clock ticks
+fn gen_race(rng: &mut Rng) -> Vec<String> {
+    let mut g = Gen::new(rng);
+    g.agos.retain(|a| *a > 0);
+    g.prelude(false, 0);
+    let rounds = g.rng.range(1, 2);
+    for _ in 0..rounds {
+        let nfiles = g.rng.range(3, 9);
+        for _ in 0..nfiles {
+            g.create_new();
+        }
+        if g.rng.chance(1, 3) {
+            g.access();
+        }
+        // keep at most one or two files: several deletions are pending when `finish()` is called
+        let mut sizes: Vec<u64> = g.inv.values().map(|v| v.0).collect();
+        sizes.sort();
+        let v = if g.rng.chance(1, 2) { 0 } else { sizes[0] };
+        g.ops.push(format!("maxsize {v}"));
+        g.ops.push("evictrace".to_string());
+        g.ops.push("open /root".to_string());
+        g.inv.clear();
+    }
+    g.ops.push("close".to_string());
+    g.ops
+}
+
 fn gen_case(rng: &mut Rng, index: u64, tier: Tier) -> Vec<String> {
-    let profile = match index % 20 {
-        0..=8 => 0,   // plain LRU histories
-        9..=11 => 1,  // + external deletions
-        12..=14 => 2, // + odd paths (outside the root, `..`, symlinks, directories)
-        15..=16 => 3, // pre-populated database
-        17..=18 => 4, // excluded points
-        _ => 5,       // asynchronous path
+    let profile = match index % 40 {
+        0..=15 => 0,  // plain LRU histories
+        16..=21 => 1, // + external deletions
+        22..=27 => 2, // + odd paths (outside the root, `..`, symlinks, directories)
+        28..=31 => 3, // pre-populated database
+        32..=35 => 4, // excluded points
+        36 => 5,      // asynchronous path (settled)
+        37 => return gen_race(rng),
+        38 => return gen_large(rng, tier),
+        _ => 6, // plain histories with an odd spelling of the root
     };
     let mut g = Gen::new(rng);
-    g.prelude(profile == 3);
+    let root_variant = if profile == 6 { g.rng.range(1, 5) } else { 0 };
+    g.prelude(profile == 3, root_variant);
     let nfiles = if profile == 5 { g.rng.range(1, 4) } else { g.rng.range(0, 8) };
     for _ in 0..nfiles {
         g.create_new();
@@ -946,6 +1204,7 @@ fn gen_case(rng: &mut Rng, index: u64, tier: Tier) -> Vec<String> {
         if profile == 5 {
             g.ops.push("evictasync".to_string());
             g.ops.push("open /root".to_string());
+            g.distinct_times = false;
         } else {
             g.evict();
         }
@@ -966,7 +1225,7 @@ impl Prop for C15 {
     fn case_count(&self, tier: Tier) -> u64 {
         match tier {
             Tier::Quick => 600,
-            Tier::Thorough => 12000,
+            Tier::Thorough => 10000,
         }
     }
     fn fixed_cases(&self, _tier: Tier) -> Vec<Case> {
@@ -1051,6 +1310,48 @@ impl Prop for C15 {
                 "close",
             ]),
         ];
+        // a pass that has to remove more than 1000 files (seeded change C15-3: `LIMIT 1000` in the LRU query);
+        // every tenth file really exists, the others are found absent
+        v.push(fixed("f-large-1100-all", &[
+            "mkdir /root", "open /root", "bulk /root/big 1100 3 n-2000 1 1 10", "maxsize 0", "evict", "evict", "close",
+        ]));
+        // … and with the cut inside the second thousand, reverse insertion order, after a restart
+        v.push(fixed("f-large-1100-cut-1001", &[
+            "mkdir /root", "open /root", "bulk /root/big 1100 2 n-2000 1 1099 0", "restart", "maxsize 198", "evict",
+            "maxsize 196", "evict", "close",
+        ]));
+        // page-sized cuts: 64 rows, then one more, then across two "pages"; all access times equal
+        v.push(fixed("f-large-pages", &[
+            "mkdir /root", "open /root", "bulk /root/p 200 1 n-5000 0 1 1", "maxsize 136", "evict", "maxsize 135", "evict",
+            "maxsize 6", "evict", "evict", "close",
+        ]));
+        if _tier == Tier::Thorough {
+            v.push(fixed("f-large-4200", &[
+                "mkdir /root", "open /root", "bulk /root/big 4200 1 n-9000 1 1 0", "maxsize 100", "evict", "close",
+            ]));
+        }
+        // the root spelled through a symbolic link / created after the manager (DirChain excluded points)
+        v.push(fixed("f-root-via-symlink", &[
+            "mkdir /root", "symlink /rl /root", "open /rl", "mkfile /root/a", "mkfile /root/b",
+            "created /root/a 10 n-3000", "created /rl/b 20 n-2000", "maxsize 25", "evict", "restart",
+            "accessed /rl/b n-5", "maxsize 0", "evict", "close",
+        ]));
+        v.push(fixed("f-root-created-later", &[
+            "open /root", "mkdir /root", "mkfile /root/a", "mkfile /root/b", "created /root/a 10 n-3000",
+            "created /root/b 20 n-2000", "maxsize 25", "evict", "restart", "maxsize 0", "evict", "close",
+        ]));
+        // rows accessed "now" and in the future (clock stepped back): never too old, last in LRU order
+        v.push(fixed("f-atime-now-and-future", &[
+            "mkdir /root", "open /root", "mkfile /root/a", "mkfile /root/b", "mkfile /root/c", "mkfile /root/d",
+            "created /root/a 10 n+3600", "created /root/b 20 n-0", "created /root/c 30 n+1", "created /root/d 5 n-1",
+            "maxage 0", "evict", "maxsize 40", "evict", "maxage 1", "maxsize 10", "evict", "close",
+        ]));
+        // trigger + finish() without waiting: the pass runs completely or not at all
+        v.push(fixed("f-race", &[
+            "mkdir /root", "open /root", "mkfile /root/a", "mkfile /root/b", "mkfile /root/c", "mkfile /root/d",
+            "created /root/a 10 n-4000", "created /root/b 20 n-3000", "created /root/c 30 n-2000",
+            "created /root/d 40 n-1000", "maxsize 0", "evictrace", "open /root", "close",
+        ]));
         // excluded points of C15_confined / C15_bookkeeping (rows recorded for paths that did not resolve)
         v.push(fixed("x-dotdot-absent", &[
             "mkdir /root", "open /root", "mkfile /out/s1", "created /root/../out/x 1000 n-9000", "maxsize 0",
@@ -1091,13 +1392,35 @@ impl Prop for C15 {
         gen_case(rng, index, tier)
     }
     fn execute(&self, ops: &[String], stats: &mut Stats) -> Vec<String> {
-        for attempt in 0..30 {
-            if let Some(out) = run_once(ops, stats) {
-                if attempt > 0 {
-                    stats.add("reruns_after_clock_tick", attempt);
+        // `evictrace`: the unbiased `select!` of the eviction task may see the stop signal first, then no
+        // pass runs at all (legitimate). The case is repeated until every race of the case ran its pass
+        // (observable change) — at most 40 times, after which the unchanged observation is what is
+        // reported (a pass with nothing to do). A pass that was *cut short* changes the state and is
+        // reported as observed.
+        let mut ticks = 0;
+        let mut races = 0;
+        let mut last = None;
+        while ticks < 30 && races < 40 {
+            match run_once(ops, stats) {
+                Once::Ticked => ticks += 1,
+                Once::Done(out, false) => {
+                    if ticks > 0 {
+                        stats.add("reruns_after_clock_tick", ticks);
+                    }
+                    if races > 0 {
+                        stats.add("reruns_after_lost_race", races);
+                    }
+                    return out;
                 }
-                return out;
+                Once::Done(out, true) => {
+                    races += 1;
+                    last = Some(out);
+                }
             }
+        }
+        if let Some(out) = last {
+            stats.bump("race_never_ran_a_pass");
+            return out;
         }
         vec!["clock-tick-retries-exhausted".to_string()]
     }
